@@ -348,7 +348,7 @@ func coordinator(prop, tier string) int {
 				}
 				stdin = bufio.NewWriter(ip)
 				stdout = bufio.NewReaderSize(op, 1<<20)
-				errFile, _ := os.CreateTemp("", "verifh-worker-*.log")
+				errFile, _ := os.CreateTemp(filepath.Dir(self), "verifh-worker-*.log") // next to the binary: the scratch directory bin/check removes
 				cmd.Stderr = errFile
 				return cmd.Start()
 			}
